@@ -383,7 +383,8 @@ impl ContextBuilder {
                 rule.context
                     .iter()
                     .skip(1)
-                    .map(|(cls, _)| cls.to_glyph().unwrap())
+                    // `format_1_coverage` accepts a class of one glyph at any position
+                    .map(|(cls, _)| cls.single_glyph().unwrap())
                     .collect(),
                 seq_lookups,
             );
